@@ -190,3 +190,61 @@ func ownWktPass(out *Out, cfg *Cfg) {
 		walkGenerated(out, "ownwkt", opts, m.ProtoReflect(), replay, 0)
 	}
 }
+
+// aliasEnumPass: enums with allow_alias (several names for one number) and undeclared numbers inside their range,
+// in singular, repeated and map-value positions, sparse and negative: a drawn value must be a DECLARED number
+// (counting values is not counting numbers once aliases exist).
+func aliasEnumPass(out *Out, cfg *Cfg) {
+	ev := func(n string, v int32) *descriptorpb.EnumValueDescriptorProto {
+		return &descriptorpb.EnumValueDescriptorProto{Name: proto.String(n), Number: proto.Int32(v)}
+	}
+	alias := &descriptorpb.EnumOptions{AllowAlias: proto.Bool(true)}
+	enums := []*descriptorpb.EnumDescriptorProto{
+		{Name: proto.String("Level"), Options: alias, Value: []*descriptorpb.EnumValueDescriptorProto{ev("LOW", 0), ev("MID", 1), ev("NORMAL", 1), ev("TOP", 3)}},
+		{Name: proto.String("Two"), Options: alias, Value: []*descriptorpb.EnumValueDescriptorProto{ev("TA", 0), ev("TB", 0), ev("TC", 2)}},
+		{Name: proto.String("Neg"), Options: alias, Value: []*descriptorpb.EnumValueDescriptorProto{ev("NZ", 0), ev("NM", -2), ev("NMM", -2), ev("NP", 1)}},
+		{Name: proto.String("Big"), Options: alias, Value: []*descriptorpb.EnumValueDescriptorProto{ev("BZ", 0), ev("BX", 5), ev("BY", 5), ev("BW", 7), ev("BV", 7), ev("BU", 10)}},
+		{Name: proto.String("Trip"), Options: alias, Value: []*descriptorpb.EnumValueDescriptorProto{ev("RA", 0), ev("RB", 0), ev("RC", 0), ev("RD", 3), ev("RE", 4)}},
+	}
+	opt := descriptorpb.FieldDescriptorProto_LABEL_OPTIONAL.Enum()
+	rep := descriptorpb.FieldDescriptorProto_LABEL_REPEATED.Enum()
+	enT := descriptorpb.FieldDescriptorProto_TYPE_ENUM.Enum()
+	f := func(name string, num int32, label *descriptorpb.FieldDescriptorProto_Label, tn string) *descriptorpb.FieldDescriptorProto {
+		return &descriptorpb.FieldDescriptorProto{Name: proto.String(name), JsonName: proto.String(name), Number: proto.Int32(num), Label: label, Type: enT, TypeName: proto.String(tn)}
+	}
+	entry := &descriptorpb.DescriptorProto{Name: proto.String("ByNameEntry"), Options: &descriptorpb.MessageOptions{MapEntry: proto.Bool(true)}, Field: []*descriptorpb.FieldDescriptorProto{
+		{Name: proto.String("key"), JsonName: proto.String("key"), Number: proto.Int32(1), Label: opt, Type: descriptorpb.FieldDescriptorProto_TYPE_STRING.Enum()},
+		f("value", 2, opt, ".verif.alias.Level")}}
+	holder := &descriptorpb.DescriptorProto{Name: proto.String("Holder"), NestedType: []*descriptorpb.DescriptorProto{entry}, Field: []*descriptorpb.FieldDescriptorProto{
+		f("level", 1, opt, ".verif.alias.Level"), f("levels", 2, rep, ".verif.alias.Level"),
+		{Name: proto.String("by_name"), JsonName: proto.String("byName"), Number: proto.Int32(3), Label: rep, Type: descriptorpb.FieldDescriptorProto_TYPE_MESSAGE.Enum(), TypeName: proto.String(".verif.alias.Holder.ByNameEntry")},
+		f("two", 4, opt, ".verif.alias.Two"), f("negs", 5, rep, ".verif.alias.Neg"), f("big", 6, opt, ".verif.alias.Big"), f("trips", 7, rep, ".verif.alias.Trip")}}
+	fdp := &descriptorpb.FileDescriptorProto{Name: proto.String("verif/alias.proto"), Package: proto.String("verif.alias"), Syntax: proto.String("proto3"),
+		EnumType: enums, MessageType: []*descriptorpb.DescriptorProto{holder}}
+	fd, err := protodesc.NewFile(fdp, nil)
+	if err != nil {
+		out.Violate("HARNESS", "alias-schema", err.Error(), "alias-enum")
+		return
+	}
+	md := fd.Messages().ByName("Holder")
+	seeds := 60
+	if cfg.Tier == "thorough" {
+		seeds = 1500
+	}
+	for seed := 0; seed < seeds; seed++ {
+		sd := int(cfg.Seed)*100000 + 17000 + seed
+		replay := fmt.Sprintf("rapid verif.alias.Holder (allow_alias enums: Level{0,1,1,3} Two{0,0,2} Neg{0,-2,-2,1} Big{0,5,5,7,7,10} Trip{0,0,0,3,4}; dynamicpb) seed=%d", sd)
+		opts := rapidproto.GeneratorOptions{}
+		if seed%2 == 1 {
+			opts.NoEmptyLists = true
+		}
+		var m proto.Message
+		if p, pm := guard(func() { m = genExample(dynamicpb.NewMessage(md), opts, sd) }); p {
+			out.Violate("C18", "gen-panic:alias-enum", "generator failed on a schema with allow_alias enums: "+firstLine(pm), replay)
+			return
+		}
+		out.Case(replay, true)
+		out.Count("alias_enum_examples")
+		walkGenerated(out, "alias", opts, m.ProtoReflect(), replay, 0)
+	}
+}
